@@ -1,6 +1,7 @@
 """C18 - the listing file tells the truth about the output (DESIGN 4, C18) - partial."""
 from vlib import Group
 import C12 as _c12
+import C05 as _c05
 
 CH = ["--bounds-check", "--pointer-check"]
 GROUPS = []
@@ -9,6 +10,8 @@ for bpa in (1, 2, 4):
                         functions=[("main (data sections dump)", "main/naken_asm.cpp", "harness+loop-contract, any address range"), ("output_hex_text", "main/naken_asm.cpp", "loop-contract")],
                         defines=["BPA=%d" % bpa], subst={"BPA": bpa}, loops="C18/listing.loops.json", expected_loops=2, unwind=20, checks=CH, timeout=900, tier="quick" if bpa != 4 else "thorough"))
 GROUPS += [g for g in _c12.GROUPS if g.name == "C12/assemble"]
+# the dump shows exactly the bytes marked DL_DATA: the data directives' contracts carry "every byte they emit is marked DL_DATA"
+GROUPS += [g for g in _c05.GROUPS if g.tier == "quick" and ("parse_db" in g.name or "parse_dc" in g.name)]
 LEVEL = "other"
 EXPLANATION = ("Partial: contract proof (DFCC loop contracts, witness byte, ghost reader of the listing) that the 'data sections' dump shows every data byte exactly once at its address, "
                "and that assemble() hands the listing callback exactly the address range of the instruction just emitted; the per-CPU listing formatters, the symbol table text and the "
@@ -16,6 +19,6 @@ EXPLANATION = ("Partial: contract proof (DFCC loop contracts, witness byte, ghos
 TRUSTED = ["fprintf replaced by a contract that recognises the dump's format strings", "Memory replaced by the witness contract"]
 MANIFEST = {
     "text": "Partial: for any image range and bytes-per-address, the data-section dump of the listing shows each data byte exactly once with its value on the line whose label + column is its address, and nothing else; assemble() passes exactly [start, location counter) to the listing formatter.",
-    "note": "57 per-CPU list_output formatters, symbol table and low/high summary are not covered.",
+    "note": "The marker obligation of the data directives (.db/.dc*: every emitted byte is marked as data, which is what the dump selects) is shared with C05. 57 per-CPU list_output formatters, symbol table and low/high summary are not covered.",
     "technique": "CBMC DFCC loop contracts (witness + ghost listing reader) on main/naken_asm.cpp and core/AsmContext.cpp",
 }
